@@ -394,3 +394,63 @@ Proof.
     with (if_arms (c_mode c) (eval c fuel esc) (exec_list c fuel esc) els s [(cnd, body)]).
   cbn [if_arms]. rewrite E. cbn [bind]. rewrite T. reflexivity.
 Qed.
+
+(* ---- maps: the association list behind VMap (ValueMap = BTreeMap<Value, Value>) ---- *)
+Lemma list_ltb_irrefl x : list_ltb x x = false.
+Proof. induction x as [|a x IH]; cbn [list_ltb]; [reflexivity|]. rewrite Z.ltb_irrefl. exact IH. Qed.
+
+Lemma value_ltb_irrefl k : value_ltb k k = false.
+Proof.
+  destruct k; cbn [value_ltb kind_rank]; try apply Z.ltb_irrefl.
+  - destruct b; reflexivity.
+  - apply list_ltb_irrefl.
+Qed.
+
+Lemma key_eqb_refl k : key_eqb k k = true.
+Proof. unfold key_eqb. rewrite value_ltb_irrefl. reflexivity. Qed.
+
+(* a key that was just inserted is found, with the inserted value: of duplicate keys in a literal the last wins *)
+Lemma map_get_insert_proof k v m : map_get k (map_insert k v m) = Some v.
+Proof.
+  induction m as [|[k' v'] r IH]; cbn [map_insert map_get].
+  - rewrite key_eqb_refl. reflexivity.
+  - destruct (value_ltb k k') eqn:E1.
+    + cbn [map_get]. rewrite key_eqb_refl. reflexivity.
+    + destruct (value_ltb k' k) eqn:E2; cbn [map_get]; unfold key_eqb; rewrite E1, E2; cbn [negb andb]; [exact IH|reflexivity].
+Qed.
+
+(* the entries stay in strictly ascending key order (so no two keys are equal in that order) *)
+Fixpoint keys_ascending (m : list (value * value)) : Prop :=
+  match m with
+  | [] => True
+  | (k, _) :: r => match r with [] => True | (k', _) :: _ => value_ltb k k' = true end /\ keys_ascending r
+  end.
+
+Lemma map_insert_ascending k v m : keys_ascending m -> keys_ascending (map_insert k v m).
+Proof.
+  induction m as [|[k' v'] r IH]; intros Hm; cbn [map_insert].
+  - cbn. auto.
+  - destruct (value_ltb k k') eqn:E1.
+    + cbn [keys_ascending]. split; [exact E1|exact Hm].
+    + destruct (value_ltb k' k) eqn:E2.
+      * cbn [keys_ascending] in Hm |- *. destruct Hm as [Hh Hr]. specialize (IH Hr). split; [|exact IH].
+        destruct r as [|[k2 v2] r2]; cbn [map_insert].
+        -- exact E2.
+        -- destruct (value_ltb k k2); [exact E2|]. destruct (value_ltb k2 k); exact Hh.
+      * cbn [keys_ascending] in Hm |- *. exact Hm.
+Qed.
+
+Lemma map_of_pairs_ascending_proof ps : keys_ascending (map_of_pairs ps).
+Proof.
+  unfold map_of_pairs. assert (H : keys_ascending []) by exact I. revert H. generalize (@nil (value * value)).
+  induction ps as [|[k v] r IH]; intros m Hm; cbn [fold_left]; [exact Hm|]. apply IH. apply map_insert_ascending. exact Hm.
+Qed.
+
+(* iterating a map = iterating its keys; `in` looks a key up; truthiness = non-emptiness *)
+Lemma map_semantics_proof kvs item :
+  contains (VMap kvs) item = Ok (match map_get item kvs with Some _ => true | None => false end) /\
+  truthy (VMap kvs) = negb (Nat.eqb (length kvs) 0) /\
+  unpack_items (VMap kvs) = Some (map fst kvs) /\
+  (forall m, do_filter m false F_length (VMap kvs) [] = Ok (VInt (lenZ kvs))) /\
+  (forall m, do_filter m false F_list (VMap kvs) [] = Ok (VList (map fst kvs))).
+Proof. repeat split; destruct kvs; reflexivity. Qed.
